@@ -1184,4 +1184,132 @@ theorem items_tail {n : Nat} {post : Str} (hp : ∀ c ∈ post, c ≠ '$' ∧ c 
     rw [List.append_nil, items_nil] at this
     rw [this, if_neg h]; rfl
 
+/-! ### Case analysis of `stringP`, and literal-only token lists -/
+
+theorem content_cons (c : Char) (r : Str) :
+    content (c :: r) =
+      if refNotOpen (c :: r) then (c :: (content r).1, (content r).2) else ([], c :: r) := by
+  unfold content
+  by_cases h : refNotOpen (c :: r) = true
+  · simp [scan, contentStep, h]
+  · simp [scan, contentStep, h]
+
+theorem refEscapeOpen_eq_none {i : Str} (h : refEscapeOpen i = none) :
+    startsWith i ['\\', '$', '{'] = false := by
+  cases hb : startsWith i ['\\', '$', '{'] with
+  | false => rfl
+  | true =>
+    obtain ⟨r, hr⟩ := (startsWith_iff_prefix _ _).1 hb
+    subst hr
+    simp [refEscapeOpen] at h
+
+theorem invEscapeOpen_eq_none {i : Str} (h : invEscapeOpen i = none) :
+    startsWith i ['\\', '$', '['] = false := by
+  cases hb : startsWith i ['\\', '$', '['] with
+  | false => rfl
+  | true =>
+    obtain ⟨r, hr⟩ := (startsWith_iff_prefix _ _).1 hb
+    subst hr
+    simp [invEscapeOpen] at h
+
+theorem doubleEscape_eq_none {i : Str} (h : doubleEscape i = none) :
+    startsWith i ['\\', '\\', '}'] = false ∧ startsWith i ['\\', '\\', '$', '{'] = false := by
+  constructor
+  · cases hb : startsWith i ['\\', '\\', '}'] with
+    | false => rfl
+    | true =>
+      obtain ⟨r, hr⟩ := (startsWith_iff_prefix _ _).1 hb
+      subst hr
+      simp [doubleEscape, startsWith] at h
+  · cases hb : startsWith i ['\\', '\\', '$', '{'] with
+    | false => rfl
+    | true =>
+      obtain ⟨r, hr⟩ := (startsWith_iff_prefix _ _).1 hb
+      subst hr
+      simp [doubleEscape, startsWith] at h
+
+theorem stringP_of_doubleEscape {i : Str} {p : Str × Str} (h : doubleEscape i = some p) :
+    stringP i = some p := by
+  simp [stringP, h]
+
+theorem stringP_of_refEscapeOpen {i : Str} {p : Str × Str} (h0 : doubleEscape i = none)
+    (h : refEscapeOpen i = some p) : stringP i = some p := by
+  simp [stringP, h0, h]
+
+theorem stringP_of_invEscapeOpen {i : Str} {p : Str × Str} (h0 : doubleEscape i = none)
+    (h1 : refEscapeOpen i = none) (h : invEscapeOpen i = some p) : stringP i = some p := by
+  simp [stringP, h0, h1, h]
+
+theorem stringP_of_content {c : Char} {r : Str} (h0 : doubleEscape (c :: r) = none)
+    (h1 : refEscapeOpen (c :: r) = none) (h2 : invEscapeOpen (c :: r) = none)
+    (h : refNotOpen (c :: r) = true) :
+    stringP (c :: r) = some (c :: (content r).1, (content r).2) := by
+  simp [stringP, h0, h1, h2, content_cons, h]
+
+/-- Coalescing a non-empty list of literals gives the one concatenated literal. -/
+theorem coalesce_lits : ∀ (ls : List Str), ls ≠ [] →
+    coalesce (ls.map Token.lit) = [.lit ls.flatten]
+  | [], h => absurd rfl h
+  | [a], _ => by simp [coalesce]
+  | a :: b :: r, _ => by
+    have ih := coalesce_lits (b :: r) (by simp)
+    rcases coalesce_lit_cases a ((b :: r).map Token.lit) with ⟨x, r', h1, h2⟩ | ⟨h1, _⟩
+    · rw [ih] at h1
+      simp only [List.cons.injEq, Token.lit.injEq] at h1
+      rw [List.map_cons, h2, ← h1.1, ← h1.2]
+      simp
+    · rw [ih] at h1
+      simp [headIsLit, Token.isLit] at h1
+
+/-! ### Escapes next to live references -/
+
+theorem scan_skip (step : Str → Option (Str × Nat)) :
+    ∀ (i : Str) (k : Nat), scan step k i = scan step 0 (i.drop k)
+  | [], k => by simp [scan]
+  | c :: cs, 0 => rfl
+  | c :: cs, k + 1 => by
+    simp only [scan, List.drop_succ_cons]
+    exact scan_skip step cs k
+
+/-- Inside a reference `\}` is a literal `}` and the run goes on. -/
+theorem refString_escClose (r : Str) :
+    refString ('\\' :: '}' :: r) = ('}' :: (refString r).1, (refString r).2) := by
+  have h : refStringStep ('\\' :: '}' :: r) = some (['}'], 2) := by
+    simp [refStringStep, startsWith]
+  unfold refString
+  simp only [scan, h]
+  rw [scan_skip]
+  rfl
+
+theorem refString_run {p rest : Str} (hp : ∀ c ∈ p, c ≠ '$' ∧ c ≠ '\\' ∧ c ≠ '}') :
+    refString (p ++ rest) = (p ++ (refString rest).1, (refString rest).2) :=
+  scan_run p rest (fun c hc r => refStringStep_plain (hp c hc).1 (hp c hc).2.1 (hp c hc).2.2 r)
+
+/-- `${a\}b}`: the escaped `}` does not close the reference. -/
+theorem reference_escClose {n : Nat} {a b post : Str}
+    (ha : ∀ c ∈ a, c ≠ '$' ∧ c ≠ '\\' ∧ c ≠ '}') (hb : ∀ c ∈ b, c ≠ '$' ∧ c ≠ '\\' ∧ c ≠ '}') :
+    reference (n + 4) ('$' :: '{' :: (a ++ '\\' :: '}' :: (b ++ '}' :: post))) =
+      .ok (.ref [.lit (a ++ '}' :: b)], post) := by
+  have hs : refString (a ++ '\\' :: '}' :: (b ++ '}' :: post)) = (a ++ '}' :: b, '}' :: post) := by
+    rw [refString_run ha, refString_escClose, refString_run_stop hb (refStringStep_close post)]
+  have hr : reference (n + 2) (a ++ '\\' :: '}' :: (b ++ '}' :: post)) = .error .fail := by
+    cases a with
+    | nil => exact reference_plain_head (by decide)
+    | cons c cs => exact reference_plain_head (ha c List.mem_cons_self).1
+  have hi : refItems (n + 3) (a ++ '\\' :: '}' :: (b ++ '}' :: post)) =
+      .ok ([.lit (a ++ '}' :: b)], '}' :: post) := by
+    rw [refItems_str hr (by rw [hs]; simp), hs, refItems_close]; rfl
+  rw [reference_of_refItems hi (by simp)]; rfl
+
+/-- `\\` directly before `${` is one literal backslash, and the `${` after it is live. -/
+theorem items_dblEsc {n : Nat} {r : Str} :
+    items (n + 2) ('\\' :: '\\' :: '$' :: '{' :: r) =
+      consTok (.lit ['\\']) (items (n + 1) ('$' :: '{' :: r)) := by
+  have hd : doubleEscape ('\\' :: '\\' :: '$' :: '{' :: r) = some (['\\'], '$' :: '{' :: r) := by
+    simp [doubleEscape, startsWith]
+  exact items_str (reference_plain_head (by decide)) (stringP_of_doubleEscape hd)
+
+theorem contentStep_dblEsc (r : Str) : contentStep ('\\' :: '\\' :: '$' :: '{' :: r) = none := by
+  simp [contentStep, refNotOpen, startsWith]
+
 end Reclass
